@@ -119,7 +119,12 @@ def work(ident, prop, tier, tree):
         # static (syntactic) checks attached to a contract, e.g. frame conditions of abstracted methods
         for kk2 in [k]:
             pass
+        # a contract registered for several properties may say which of its obligations speak about which property
+        # (`prop_clauses = {"C03": predicate over the obligation id}`); obligations outside the property's clauses are not this check's
+        sel = getattr(k, "prop_clauses", {}).get(prop)
         for o in res.obligations:
+            if sel is not None and not sel(o.oid):
+                continue
             discharge(o, timeout)
             rec = {"id": o.oid, "kind": o.kind, "path": o.path, "status": o.status, "seconds": round(o.seconds, 4),
                    "backend": o.backend, "meta": {kk: str(v)[:200] for kk, v in (o.meta or {}).items()}}
